@@ -339,7 +339,10 @@ def apply_op(table, o: dict, rng: random.Random | None = None, enc: str = "max")
         return table.append_cell(o["y"], make_cell(o["c"], o["n"]))
     if op == "delete_cell":
         return table.delete_cell((o["x"], o["y"]))
+    alt = rng is not None and rng.random() < 0.35  # the sibling method documented as equivalent
     if op == "set_row":
+        if alt and o["n"] == 1:
+            return table.set_row_cells(o["y"], [make_cell(c) for c in o["r"]])
         return table.set_row(o["y"], make_row(o["r"], o["n"], enc, rng))
     if op == "insert_row":
         return table.insert_row(o["y"], make_row(o["r"], o["n"], enc, rng))
@@ -350,6 +353,8 @@ def apply_op(table, o: dict, rng: random.Random | None = None, enc: str = "max")
     if op == "set_row_values":
         return table.set_row_values(o["y"], [v if v != E else None for v in o["r"]])
     if op == "set_values":
+        if alt:
+            return table.set_cells([[make_cell(v) for v in line] for line in o["m"]], (o["x"], o["y"]))
         m = [[v if v != E else None for v in line] for line in o["m"]]
         return table.set_values(m, (o["x"], o["y"]))
     if op == "insert_column":
@@ -361,7 +366,13 @@ def apply_op(table, o: dict, rng: random.Random | None = None, enc: str = "max")
     if op == "delete_column":
         return table.delete_column(o["x"])
     if op == "set_column_cells":
+        if alt and S not in o["r"]:
+            return table.set_column_values(o["x"], [c if c != E else None for c in o["r"]])
         return table.set_column_cells(o["x"], [make_cell(c) for c in o["r"]])
+    if op == "clear":
+        return table.clear()
+    if op == "extend_rows":
+        return table.extend_rows([make_row(x["r"], x["n"], enc, rng) for x in o["rs"]])
     if op == "transpose":
         return table.transpose()
     if op == "rstrip":
@@ -373,10 +384,15 @@ def apply_op(table, o: dict, rng: random.Random | None = None, enc: str = "max")
     raise ValueError(op)
 
 
-def apply_row_op(row, o: dict):
+def apply_row_op(row, o: dict, rng: random.Random | None = None):
     op = o["op"]
+    alt = rng is not None and rng.random() < 0.35
     if op == "row_set_cell":
+        if alt and o["n"] == 1 and o["c"] != S:
+            return row.set_value(o["x"], o["c"] if o["c"] != E else None)
         return row.set_cell(o["x"], make_cell(o["c"], o["n"]))
+    if op == "row_clear":
+        return row.clear()
     if op == "row_insert_cell":
         return row.insert_cell(o["x"], make_cell(o["c"], o["n"]))
     if op == "row_append_cell":
@@ -384,6 +400,8 @@ def apply_row_op(row, o: dict):
     if op == "row_delete_cell":
         return row.delete_cell(o["x"])
     if op == "row_set_values":
+        if alt:
+            return row.set_cells([make_cell(v) for v in o["r"]], start=o["x"])
         return row.set_values([v if v != E else None for v in o["r"]], start=o["x"])
     if op == "row_rstrip":
         return row.rstrip(aggressive=bool(o["c"]))
